@@ -128,7 +128,7 @@ def run(ctx):
     # "canonical form" is what the one serializer produces (C07-R1, re-evaluated here)
     from .c07 import serializer_config
 
-    serializer_config(ctx.sub("DEP-C07"))
+    serializer_config(ctx.sub("DEP-C07"), published=False)
     # "every verdict is the same before and after": writing sorts the signature map, so the verdict
     # must not depend on the order (or neighbours) of its entries (C06-R3, re-evaluated here)
     from .c06 import entries_independent
